@@ -600,3 +600,72 @@ impl HangWatch {
         self.stuck.lock().unwrap().clone()
     }
 }
+
+// ------------------------------------------------------------------------------------------
+// real interruptions: SIGUSR1 (handler installed without SA_RESTART) sent to the calling thread
+// at chosen offsets while it is inside a library call, so that waits fail with EINTR after real
+// time has passed
+// ------------------------------------------------------------------------------------------
+
+pub static SIGNALS_HANDLED: std::sync::atomic::AtomicU32 = std::sync::atomic::AtomicU32::new(0);
+
+extern "C" fn on_usr1(_sig: i32) {
+    SIGNALS_HANDLED.fetch_add(1, std::sync::atomic::Ordering::Relaxed);
+}
+
+pub struct Interrupter {
+    stop: std::sync::Arc<std::sync::atomic::AtomicBool>,
+    handle: Option<std::thread::JoinHandle<()>>,
+}
+
+impl Interrupter {
+    /// Signals the CALLING thread at the given offsets (microseconds from now) until dropped.
+    pub fn start(offsets_us: Vec<u64>) -> Interrupter {
+        static ONCE: std::sync::Once = std::sync::Once::new();
+        ONCE.call_once(|| unsafe {
+            let mut sa: libc::sigaction = core::mem::zeroed();
+            sa.sa_sigaction = on_usr1 as *const () as usize;
+            sa.sa_flags = 0; // no SA_RESTART
+            libc::sigemptyset(&mut sa.sa_mask);
+            libc::sigaction(libc::SIGUSR1, &sa, core::ptr::null_mut());
+        });
+        let target = unsafe { libc::pthread_self() } as usize;
+        let stop = std::sync::Arc::new(std::sync::atomic::AtomicBool::new(false));
+        let s2 = stop.clone();
+        let t0 = std::time::Instant::now();
+        let handle = std::thread::spawn(move || {
+            for off in offsets_us {
+                let at = std::time::Duration::from_micros(off);
+                loop {
+                    if s2.load(std::sync::atomic::Ordering::SeqCst) {
+                        return;
+                    }
+                    let now = t0.elapsed();
+                    if now >= at {
+                        break;
+                    }
+                    let left = at - now;
+                    if left > std::time::Duration::from_micros(300) {
+                        std::thread::sleep(left - std::time::Duration::from_micros(200));
+                    } else {
+                        std::hint::spin_loop();
+                    }
+                }
+                if s2.load(std::sync::atomic::Ordering::SeqCst) {
+                    return;
+                }
+                unsafe { libc::pthread_kill(target as libc::pthread_t, libc::SIGUSR1) };
+            }
+        });
+        Interrupter { stop, handle: Some(handle) }
+    }
+}
+
+impl Drop for Interrupter {
+    fn drop(&mut self) {
+        self.stop.store(true, std::sync::atomic::Ordering::SeqCst);
+        if let Some(h) = self.handle.take() {
+            let _ = h.join();
+        }
+    }
+}
